@@ -177,6 +177,8 @@ func (c *Channel) Open() (reterr error) {
 	case transport.InChannelAuthUnsupported:
 	}
 
+	simhook.Yield("chan.open.putback")
+
 	if len(b) > 0 {
 		// requeue any buffer data we get during in channel authentication back onto the
 		// read buffer. mostly this should only be relevant for netconf where we need to
